@@ -113,7 +113,12 @@ def run(ctx, R, tier):
                     datast = [st for st, t, k in stores_in(snd.node) if unparse(t) == "self.data"]
                     ok = bool(datast) and unparse(pv.args[0]) in names_in(datast[-1].value)
             elif role == "annotations_size":
-                ok = unparse(pv) == "annotations_size" and unparse(tg) == "self.annotations_size"
+                ok = isinstance(pv, ast.Name) and unparse(tg) == "self.annotations_size"
+                if ok:
+                    srd0 = ctx.rd(snd)
+                    defs0 = [d for pn in ctx.node_of(snd, hdr_pack[0]) for d in srd0.reaching(pn, pv.id)]
+                    ok = bool(defs0) and all(d.kind == "assign" and d.value is not None and any(isinstance(x, ast.Call) and unparse(x.func) == "sum" for x in ast.walk(d.value))
+                                             for d in defs0)
             elif role == "corr_id":
                 ok = unparse(pv) == "self.corr_id" and unparse(tg) == "self.corr_id"
             else:
@@ -237,7 +242,7 @@ def run(ctx, R, tier):
             for d in srd.reaching(t, nm):
                 if d.value is not None and d.kind == "assign":
                     var_chain |= names_in(d.value)
-        var_chain &= {"payload", "annotations_size", "annotations", "total_size"}
+        var_chain -= set(snd.params) - {snd.params[5]}   # parameters other than the payload cannot be redefined meaningfully
         for pn in pack_nodes:
             for nm in sorted(var_chain):
                 at_check_def = None
